@@ -43,6 +43,7 @@ type hdrExp struct {
 	NSubs     int    `json:"nsubs"`
 	Ever      []int  `json:"ever"`
 	SavedWork int    `json:"savedWork"`
+	MaxTips   []int  `json:"maxtips"`
 }
 
 type hdrOp struct {
@@ -135,6 +136,10 @@ type hdrWorld struct {
 
 	stats *hdrStats
 	div   []hdrDiv
+	// the implementation reported another tip of maximal work than this behaviour assumes: the
+	// behaviour generated for that choice is the one that is compared, this one stops
+	tieStop bool
+	sawTie  bool
 }
 
 type hdrStats struct {
@@ -149,6 +154,9 @@ type hdrStats struct {
 	Reorgs      int            `json:"reorgs"`
 	MaxHeight   int            `json:"max_height"`
 	Truncated   map[string]int `json:"truncated"`
+	TieStates   int            `json:"tie_states"`  // steps replayed whose expected state has several most-work tips
+	TieStopped  int            `json:"tie_stopped"` // behaviours stopped because the implementation chose another allowed tip
+	TieFollowed int            `json:"tie_followed"` // behaviours with at least one tie state replayed to their end
 }
 
 func (w *hdrWorld) cmp(prop string) {
@@ -537,6 +545,12 @@ func (w *hdrWorld) run() {
 		}
 
 		w.observe(step, op, prevExp)
+		if w.tieStop {
+			w.stats.Lock()
+			w.stats.TieStopped++
+			w.stats.Unlock()
+			return
+		}
 
 		if needBefore {
 			after := w.project()
@@ -571,6 +585,11 @@ func (w *hdrWorld) run() {
 		}
 	}
 	_ = S
+	if w.sawTie {
+		w.stats.Lock()
+		w.stats.TieFollowed++
+		w.stats.Unlock()
+	}
 }
 
 func firstDiff(a, b string) string {
@@ -589,6 +608,24 @@ func (w *hdrWorld) observe(step int, op hdrOp, prev *hdrExp) {
 	exp := op.Exp
 	repo := w.repo
 	N := len(w.beh.Parent)
+
+	// ---- ties: C01 asks for a tip of maximal work; the specification leaves the choice open
+	if len(exp.MaxTips) > 1 {
+		w.sawTie = true
+		w.stats.Lock()
+		w.stats.TieStates++
+		w.stats.Unlock()
+		// only an accepting submission or a mark may choose among equal tips; Clean, Save and Load keep the tip
+		mayChoose := (op.Op == "submit" && exp.Verdict == "ok") || op.Op == "mark"
+		if id, ok := w.idOf[repo.LastHash()]; mayChoose && ok && id[0] != exp.Tip && id[1] == S-1 {
+			for _, t := range exp.MaxTips {
+				if t == id[0] {
+					w.tieStop = true
+					return
+				}
+			}
+		}
+	}
 
 	// ---- C07: stream
 	expStream := [][2]int{}
